@@ -186,7 +186,11 @@ class ConveyorBelt(Edge):
                 print(f"T={self.env.now:.2f}: {self.id }: attempting to put an item while non accumulating mode on and {self.state} and {self.belt.noaccumulation_mode_on}")
             print(f"T={self.env.now:.2f}: {self.id }:put: item arrival event else succeeded")
         
-        if self.state=="STALLED_ACCUMULATING_STATE" and self.accumulating==1 or self.state=="STALLED_NONACCUMULATING_STATE" and self.accumulating==0:
+        if self.state=="STALLED_NONACCUMULATING_STATE" and self.accumulating==0:
+            # the whole belt is standing still: an item placed on it now does not move either until the belt is released
+            print(f"T={self.env.now:.2f}: {self.id }:put: new item {item_to_put[0].id} placed on a stopped belt")
+            self.belt._interrupt_specific_item(item_to_put[0].id, "New item on a stopped non-accumulating belt")
+        elif self.state=="STALLED_ACCUMULATING_STATE" and self.accumulating==1:
             print(f"T={self.env.now:.2f}: {self.id }:put: handling new item during interruption {item_to_put[0].id} on belt")
             self.belt.handle_new_item_during_interruption(item_to_put)
             
